@@ -32,6 +32,8 @@ func genOp(kinds []string) *rapid.Generator[Op] {
 		case "add", "replace", "remove", "get", "after":
 			op.A = rapid.IntRange(0, 47).Draw(t, "x")
 		case "clear":
+		case "ascL", "descL":
+			op.A = rapid.IntRange(0, 1399).Draw(t, "a")
 		default:
 			op.A = rapid.IntRange(0, 400).Draw(t, "a")
 		}
@@ -46,7 +48,7 @@ func genOp(kinds []string) *rapid.Generator[Op] {
 func genBeta(depth bool) *rapid.Generator[int] {
 	if depth {
 		return rapid.OneOf(
-			rapid.SampledFrom([]int{0, 1, 100, 250, 250, 500, 500, 750, 900, 990, 999}),
+			rapid.SampledFrom([]int{0, 1, 100, 250, 250, 500, 500, 750, 900, 950, 981, 985, 990, 999}),
 			rapid.IntRange(0, 999),
 		)
 	}
@@ -81,6 +83,10 @@ func genTreeCase(depth bool) func(t *rapid.T) TreeCase {
 			}
 			run := rapid.SampledFrom([]string{"asc", "desc", "zig"}).Draw(t, "runKind")
 			ins(Op{Kind: run, A: rapid.IntRange(7, 39).Draw(t, "runLen")})
+			if depth && c.Beta >= 900 && rapid.Bool().Draw(t, "long") {
+				// loose factors: only a long path-extending run gets near the bound
+				ins(Op{Kind: rapid.SampledFrom([]string{"ascL", "descL"}).Draw(t, "longKind"), A: rapid.IntRange(0, 1399).Draw(t, "longLen")})
+			}
 			if depth {
 				ins(Op{Kind: "deep", A: rapid.IntRange(0, 5).Draw(t, "deepN"), B: rapid.IntRange(0, 400).Draw(t, "deepB")})
 				ins(Op{Kind: "drain", A: rapid.IntRange(0, 3).Draw(t, "dk"), B: rapid.IntRange(0, 3).Draw(t, "dkeep")})
@@ -142,6 +148,13 @@ func runC02(c TreeCase, o *vk.Obs) string {
 	o.ClassIf(r.delRebuild, "delete_side_rebuild(shadow)")
 	o.ClassIf(r.maxHeight >= 8, "height>=8")
 	o.ClassIf(len(c.Init) > 47, "bulk_init_large")
+	o.ClassIf(c.Beta >= 900, "beta>=900")
+	for _, op := range c.Ops {
+		if op.Kind == "ascL" || op.Kind == "descL" {
+			o.Class("long_monotone_run(300..1700)")
+			break
+		}
+	}
 	return ""
 }
 
